@@ -8,6 +8,7 @@ import (
 
 	"github.com/Vedant9500/WTF/internal/config"
 	"github.com/Vedant9500/WTF/internal/database"
+	"github.com/Vedant9500/WTF/internal/utils"
 
 	"github.com/spf13/cobra"
 	"gopkg.in/yaml.v3"
@@ -132,7 +133,9 @@ func writePersonalDatabase(dbPath string, commands []database.Command) error {
 		return fmt.Errorf("failed to encode commands faithfully: %w", err)
 	}
 
-	err = os.WriteFile(dbPath, data, 0644)
+	// Replace the notebook atomically: it is the only irreplaceable data the
+	// tool owns, and an interrupted in-place write would truncate it.
+	err = utils.WriteFileAtomic(dbPath, data, 0644)
 	if err != nil {
 		return fmt.Errorf("failed to write personal database: %w", err)
 	}
